@@ -6,7 +6,7 @@ from hypothesis import strategies as st
 
 from .. import gen, model
 from ..core import SKIP, Enum, Sub
-from ..util import NAN, arr, compare, flags
+from ..util import carr, NAN, arr, compare, flags
 
 ID = "C03"
 RULE = ("gross_range_test: dyadic fail span (either order, list/tuple, degenerate), suspect span constructed inside it "
@@ -87,7 +87,7 @@ def check_gross(case, rec):
     if sus is not None or case.get("explicit_none"):
         kw["suspect_span"] = None if sus is None else _span(sus, case["kind"])
     site = "qartod.gross_range_test"
-    got = flags(rec, site, rec.call(site, _gr(), arr(x), **kw), len(x))
+    got = flags(rec, site, rec.call(site, _gr(), carr(case, x), **kw), len(x))
     if got is SKIP:
         return
     compare(rec, site, got, model.model_gross_range(x, fail, sus))
@@ -258,7 +258,7 @@ def check_enum(case, rec):
 
 
 SUBS = [
-    Sub("gross_range", gross_case, check_gross, quick=4000, thorough=80000),
+    Sub("gross_range", lambda tier: gen.with_carrier(gross_case(tier)), check_gross, quick=4000, thorough=80000),
     Sub("gross_range_reject", gross_reject_case, check_gross_reject, quick=600, thorough=8000, quick_shards=1),
     Sub("valid_range", valid_case, check_valid, quick=3000, thorough=60000),
 ]
